@@ -268,7 +268,21 @@ func judgeEmbargo(ep eprog, out *eoutcome, vr *vsched.Result) (string, string) {
 			}
 		}
 		if late {
-			return "embargo/order/pipelined-call-sent-after-return", fmt.Sprintf("the local capability saw calls in order %v; they were made in order %v: a pipelined call that started before the Return was handled (and was therefore not covered by an embargo) was sent to the peer after the Return, and a later call on the resolved capability overtook it\nwire: %s", got, want, wire)
+			// The recorded open finding needs two deviations from the default
+			// schedule (the PipelineSend has to be preempted between marking
+			// its path and sending, and the Return handled in between); the
+			// same symptom inside one deviation is a different violation.
+			dev := 0
+			for _, d := range vr.Decisions {
+				if d.Chosen != 0 {
+					dev++
+				}
+			}
+			key := "embargo/order/pipelined-call-sent-after-return"
+			if dev < 2 {
+				key += "/within-1-deviation"
+			}
+			return key, fmt.Sprintf("the local capability saw calls in order %v; they were made in order %v: a pipelined call that started before the Return was handled (and was therefore not covered by an embargo) was sent to the peer after the Return, and a later call on the resolved capability overtook it\nwire: %s", got, want, wire)
 		}
 		return "embargo/order", fmt.Sprintf("the local capability saw calls in order %v; they were made in order %v (calls pipelined before the Return must not be overtaken by calls made on the resolved capability)\nwire: %s", got, want, wire)
 	}
